@@ -799,6 +799,13 @@ func (t *objectType) ToKey() px.HashKey {
 
 func (t *objectType) ToReflectedValue(c px.Context, src px.PuppetObject, dest reflect.Value) {
 	dt := dest.Type()
+	if dt.Kind() == reflect.Ptr {
+		// The destination is a pointer to the struct. The struct must be allocated
+		p := reflect.New(dt.Elem())
+		t.ToReflectedValue(c, src, p.Elem())
+		dest.Set(p)
+		return
+	}
 	rf := c.Reflector()
 	fs := rf.Fields(dt)
 	for i, field := range fs {
